@@ -3,7 +3,7 @@ from props import element_common as ec
 
 NAMESPACE = 'C15'
 LEAN_TARGETS = ['MxV.Props.C15']
-THEOREMS = ['instance_replaces_or_adds', 'none_removes', 'value_sets_or_builds', 'unknown_name_is_attribute_error']
+THEOREMS = ['instance_replaces_or_adds', 'none_removes', 'value_sets_or_builds', 'unknown_name_is_attribute_error', 'element_names_no_underscore', 'attr_names_no_underscore', 'reserved_collisions']
 TRUSTED_BASE = ['Lean 4.33.0 kernel', 'axioms: propext, Quot.sound, Classical.choice only (audited per theorem)',
                 'translator extract/*.py (attribute / validator / template tables regenerated every run)',
                 'correspondence harness: real XMLElement trees vs the Lean models Element, Values, Serialize, Parser, Mfull through mxdriver',
